@@ -653,6 +653,23 @@ def _calls():
         lambda c: dict(values=["p", "q"]), lambda c: setattr(c["ps"], "values", vec(c, ["a"], ["a", "b", "c"])))
     add("Property.extend_values", lambda c, **kw: c["pf"].extend_values(**kw),
         lambda c: dict(data=[7.5, 8.5]), lambda c: setattr(c["pf"], "values", vec(c, [0.5], [0.5, 1.5, 2.5])))
+    # --- single-valued attributes: the valid value in every spelling a number / a text has
+    for key, cls, attr, good, back in (
+            ("sm", "SampledDimension", "sampling_interval", 0.5, 1.0), ("sm", "SampledDimension", "offset", 2.5, None),
+            ("sm", "SampledDimension", "unit", "ms", None), ("sm", "SampledDimension", "label", "time", None),
+            ("rd", "RangeDimension", "unit", "ms", None), ("rd", "RangeDimension", "label", "time", None),
+            ("rl", "RangeDimension(linked)", "unit", "ms", None), ("rl", "RangeDimension(linked)", "label", "time", None),
+            ("sd", "SetDimension", "label", "kind", None), ("da", "DataArray", "expansion_origin", 1.5, 0.5),
+            ("da", "DataArray", "unit", "mV", None), ("da", "DataArray", "label", "voltage", None),
+            ("da", "DataArray", "type", "signal", "t"), ("da", "DataArray", "definition", "some text", None),
+            ("pr", "Property", "uncertainty", 0.25, None), ("pr", "Property", "unit", "mV", None),
+            ("pr", "Property", "definition", "some text", None), ("pr", "Property", "reference", "ref", None),
+            ("pr", "Property", "dependency", "dep", None), ("pr", "Property", "dependency_value", "dv", None),
+            ("pr", "Property", "value_origin", "vo", None), ("s", "Section", "repository", "repo", None),
+            ("s", "Section", "reference", "ref", None), ("s", "Section", "type", "kind", "t"),
+            ("b", "Block", "definition", "some text", None), ("t", "Tag", "type", "kind", "t")):
+        add("%s.%s=" % (cls, attr), lambda c, key=key, attr=attr, **kw: setattr(c[key], attr, kw["value"]),
+            lambda c, good=good: dict(value=good), lambda c, key=key, attr=attr, back=back: setattr(c[key], attr, back))
     add("Entity.force_updated_at", lambda c, **kw: c["da"].force_updated_at(**kw),
         lambda c: dict(time=1600000000), lambda c: c["da"].force_updated_at(1600000000))
     return C
